@@ -3,12 +3,13 @@ import json
 import os
 import vlib
 
-ACTIONS = ["Init", "RunNsec", "RunNsec3", "RunNsec3Params", "RunBad", "BmAddType"]
+ACTIONS = ["Init", "RunNsec", "RunNsec3", "RunNsec3Params", "RunBad", "BmAddType",
+           "CfgStart", "CfgCall", "RunNsec3Flags"]
 
 META = {
     "category": "model_checking",
-    "text": "Denial.tla defines the NSEC and NSEC3 chains of a zone declaratively (authoritative names, cut rule, empty non-terminals, opt-out, cyclic successor over canonical / hash order) and transcribes the single-pass generators generate_nsecs / generate_nsec3s (cut, prev, ENT stack) and the RtypeBitmapBuilder; TLC checks over all zones of apex + up to 2 further owner names from 13 (quick) / 17 (thorough) spelled names and 4 / 5 type sets (case variants, wildcards, delegations with glue, occluded data, shared ENTs, names outside the zone) plus hand-picked larger zones that pass = declarative chain, the chain is closed, and every absent (name, type) has a proof; every explored zone and add-sequence is replayed into the real generators and bitmap builder, NSEC3 owner hashes are matched against independently evaluated iterated SHA-1 terms and hash order / closure checked on those; MC_ZoneBuild.tla models the workflow on one SortedRecords collection (assembly by From<Vec> / extend / insert in batches that repeat records, generate, extend with the generated NSECs, generate again: the collection stays the sorted duplicate-free content and the chain a function of it); limit shapes (255-octet owner names, 220-222-octet apex names) and every order of the GenerateNsec3Config setters are part of the replayed cases; recorded chains for random larger zones are validated by TLC.",
-    "note": "Trusted: TLC, ring SHA-1, the transcription of RFC 4034/4035/5155/9077 in Denial.tla. The NSEC3 hash is uninterpreted in the model (a few hash orders per zone); real hash order enters through the replay and the recorded traces. Occlusion by DNAME is not modelled. Owner-name case of generated records is compared case-insensitively. The opt-out flag is expected on every NSEC3 RR when opt-out is configured.",
+    "text": "Denial.tla defines the NSEC and NSEC3 chains of a zone declaratively (authoritative names, cut rule, empty non-terminals, opt-out, cyclic successor over canonical / hash order) and transcribes the single-pass generators generate_nsecs / generate_nsec3s (cut, prev, ENT stack) and the RtypeBitmapBuilder; TLC checks over all zones of apex + up to 2 further owner names from 13 (quick) / 17 (thorough) spelled names and 4 / 5 type sets (case variants, wildcards, delegations with glue, occluded data, shared ENTs, names outside the zone) plus hand-picked larger zones that pass = declarative chain, the chain is closed, and every absent (name, type) has a proof; every explored zone and add-sequence is replayed into the real generators and bitmap builder, NSEC3 owner hashes are matched against independently evaluated iterated SHA-1 terms and hash order / closure checked on those; MC_ZoneBuild.tla models the workflow on one SortedRecords collection (assembly by From<Vec> / extend / insert in batches that repeat records, generate, extend with the generated NSECs, generate again: the collection stays the sorted duplicate-free content and the chain a function of it); limit shapes (255-octet owner names, 220-222-octet apex names) and every order of the GenerateNsec3Config setters are part of the replayed cases; the Flags octet of the NSEC3 parameters is an input (Denial.tla part 5: Opt-Out is the least significant BIT whatever the other seven bits are, the octet is copied verbatim into every NSEC3 RR, opt_out_flag / opt_out / set_opt_out_flag transcribed with their masks and checked against the bit for all 256 values, the configuration as a machine new(params) -> setter calls -> generator with the decision GenExcludes, OptOutConsistent: what the RRs advertise agrees with what the chain leaves out): every value 0..255 x every setter script on a zone with an ENT leading only to an insecure delegation, a secure delegation, glue and a wildcard (edge values on a second zone) is replayed into generate_nsec3s, the accessor pair and the setter are replayed for all 256 values through every route to an Nsec3param / Nsec3 (constructor, wire, octets conversion, serde, ZoneRecordData, with_opt_out()); recorded zones start from a random Flags octet and TLC recomputes the configuration from the recorded setter calls; recorded chains for random larger zones are validated by TLC.",
+    "note": "Trusted: TLC, ring SHA-1, the transcription of RFC 4034/4035/5155/9077 in Denial.tla. The NSEC3 hash is uninterpreted in the model (a few hash orders per zone); real hash order enters through the replay and the recorded traces. Occlusion by DNAME is not modelled. Owner-name case of generated records is compared case-insensitively. Every NSEC3 RR is expected to carry the configured Flags octet verbatim (undefined bits included: the library documents params as the caller's settings and does not clear them). The NSEC3PARAM RR may carry either 0 (RFC 5155 4.1.2) or the configured octet (what the library returns): both are admitted, its opt_out_flag() must be the bit of what it carries.",
     "technique": "TLA+ spec (Denial.tla) + TLC exhaustive; spec->impl case replay with symbolic hash terms; impl->spec trace validation",
     "design_ref": "DESIGN.md §4 C13",
 }
